@@ -217,19 +217,30 @@ def check_rescale(ctx):
         mx = mn + float(rng.integers(1, 10)) / 2
         jmin = mn if kind in ("both", "min-only") else -np.inf
         jmax = mx if kind in ("both", "max-only") else np.inf
+        # the new bounds as a user may write them: JAX / NumPy floats, Python floats, Python or NumPy integers
+        # (`RescaleAction(env, 0, 1)`) — the rescale is about their values
+        form = str(rng.choice(["jnp", "jnp", "float", "int", "np-int", "np-float64"]))
+        if form in ("int", "np-int"):
+            mn = float(int(rng.integers(-3, 3)))
+            mx = mn + float(int(rng.integers(1, 5)))
+            kind = "both"
+            jmin, jmax = mn, mx
+        conv = {"jnp": jnp.array, "float": float, "int": int, "np-int": lambda v: np.asarray(int(v)),
+                "np-float64": np.float64}[form]
         box = Box(jnp.array([low]), jnp.array([high]))
         xs = np.array([low, high, mn, mx, (low + high) / 2, float(rng.uniform(-10, 10))])
         with warnings.catch_warnings():
             warnings.simplefilter("ignore")
-            new_box, fwd, bwd = rescale_box(box, jnp.array(jmin), jnp.array(jmax))
+            new_box, fwd, bwd = rescale_box(box, conv(jmin), conv(jmax))
         f_impl = np.array([float(fwd(jnp.array([x]))[0]) for x in xs])
         b_impl = np.array([float(bwd(jnp.array([x]))[0]) for x in xs])
         m = ctx.drv.call("rescale", low=low, high=high, min=(None if not np.isfinite(jmin) else mn),
                          max=(None if not np.isfinite(jmax) else mx), xs=xs)
-        case = {"kind": "rescale", "low": low, "high": high, "min": jmin, "max": jmax, "xs": xs,
+        case = {"kind": "rescale", "low": low, "high": high, "min": jmin, "max": jmax, "bounds_given_as": form, "xs": xs,
                 "impl_forward": f_impl, "impl_backward": b_impl}
         ctx.case(case, True, sample=case if i == 0 else None)
         ctx.count("rescale:" + kind)
+        ctx.count("rescale-bounds-as:" + form)
         # Φ on the implementation: endpoints / translation, inverse
         if kind == "both":
             if not (ctx.close(b_impl[2], low, 8) and ctx.close(b_impl[3], high, 8)
